@@ -125,16 +125,16 @@ func runChurn(f *vevid.Flags, rep *vevid.Report) {
 		runSearch(f, rep, workItem{cfg: c})
 		return
 	}
-	todo := mine(items, f.Shard, f.Shards)
 	if only != "" {
-		todo = nil
+		var sel []workItem
 		for _, it := range items {
-			if it.cfg.Name == only {
-				todo = append(todo, it)
+			if strings.Contains(it.cfg.Name, only) {
+				sel = append(sel, it)
 			}
 		}
+		items = sel
 	}
-	for _, it := range todo {
+	for _, it := range mine(items, f.Shard, f.Shards) {
 		runSearch(f, rep, it)
 	}
 }
@@ -230,6 +230,7 @@ func replayChurn(rep *vevid.Report, r churnReplay) {
 					Detail: fd.Detail + "\nhistory: " + strings.Join(s.hist, " "), Replay: r})
 			}
 		}
+		rep.Extra["replay_final_state"] = s.Canon()
 		s.Close()
 		if bad {
 			fails++
